@@ -73,22 +73,58 @@ func ruleSRTTags(p *Prog, l *Ledger, tier string) {
 		sc := c.Call.StaticCallee()
 		return sc != nil && sc.Name() == "Next"
 	}
+	// what each (token kind, tag name) pair writes: the parser is walked with the token type and the
+	// tag name fixed (partial evaluation), so two switches, one switch on a boolean `on`, or a table
+	// of handlers all read the same
 	start, end := map[string]strset{}, map[string]strset{}
-	for tag, targets := range constArms(fn, isData) {
-		for _, t := range targets {
-			kind, ok := dominatingConstOn(t, isTokType)
-			if !ok {
-				continue
+	var tokCall ssa.Instruction
+	dataLoads := []ssa.Value{}
+	tagNames := strset{}
+	for _, b := range fn.Blocks {
+		for _, ins := range b.Instrs {
+			if v, ok := ins.(ssa.Value); ok {
+				if isTokType(v) && tokCall == nil {
+					tokCall = ins
+				}
+				if isData(v) {
+					dataLoads = append(dataLoads, v)
+				}
 			}
-			fields := strset{}
-			for f := range fieldStores(regionBlocks(t, nil), "StyleAttributes") {
-				fields.add(f)
+			if bo, ok := ins.(*ssa.BinOp); ok && bo.Op == token.EQL {
+				if isData(bo.X) {
+					if c, ok := constStr(bo.Y); ok {
+						tagNames.add(c)
+					}
+				}
+				if isData(bo.Y) {
+					if c, ok := constStr(bo.X); ok {
+						tagNames.add(c)
+					}
+				}
 			}
-			switch kind {
-			case startTok:
-				start[tag] = fields
-			case endTok:
-				end[tag] = fields
+		}
+	}
+	if tokCall != nil {
+		for _, tag := range tagNames.sorted() {
+			for _, kind := range []int64{startTok, endTok} {
+				env := map[ssa.Value]pv{tokCall.(ssa.Value): {i: kind}}
+				for _, dl := range dataLoads {
+					env[dl] = pv{isStr: true, s: tag}
+				}
+				fields := strset{}
+				_, _, ok := pevalWalk(tokCall, env, nil, func(b *ssa.BasicBlock, _ map[ssa.Value]pv) {
+					for f := range fieldStores([]*ssa.BasicBlock{b}, "StyleAttributes") {
+						fields.add(f)
+					}
+				})
+				if !ok || len(fields) == 0 {
+					continue
+				}
+				if kind == startTok {
+					start[tag] = fields
+				} else {
+					end[tag] = fields
+				}
 			}
 		}
 	}
@@ -117,7 +153,18 @@ func ruleSRTTags(p *Prog, l *Ledger, tier string) {
 	}
 	l.Min(rule+".tags", len(tags), 4)
 	// capture literal copies every state field
-	capt := wiring(fn, "StyleAttributes", "StyleAttributes")
+	// the capture may live in a helper (a method building the run's attributes from the running state)
+	capt := map[string]string{}
+	for _, h := range p.Helpers(fn) {
+		if fnPkg(h) != p.LibSSA {
+			continue
+		}
+		for k, v := range wiring(h, "StyleAttributes", "StyleAttributes") {
+			if k == v || capt[k] == "" {
+				capt[k] = v
+			}
+		}
+	}
 	for _, f := range state.sorted() {
 		key := rule + "|capture|" + f
 		if capt[f] == f {
@@ -131,36 +178,29 @@ func ruleSRTTags(p *Prog, l *Ledger, tier string) {
 		s   string
 		pos token.Pos
 	}
+	// every string constant the writer uses, wherever it is used ([]byte("<b>"), append(c, "<b>"...),
+	// b.WriteString("<b>"), "<font color=\"" + color + "\">"), in source order
 	for _, b := range wr.Blocks {
 		for _, ins := range b.Instrs {
-			var v ssa.Value
-			switch x := ins.(type) {
-			case *ssa.Convert:
-				v = x.X
-			default:
+			if _, isDbg := ins.(*ssa.DebugRef); isDbg {
 				continue
 			}
-			s, ok := constStr(v)
-			if !ok {
-				if bo, ok2 := v.(*ssa.BinOp); ok2 { // "<font color=\"" + color + "\">"
-					for cur := ssa.Value(bo); cur != nil; {
-						if b2, ok := cur.(*ssa.BinOp); ok {
-							if cs, ok := constStr(b2.X); ok {
-								s = cs
-								break
-							}
-							cur = b2.X
-						} else {
-							break
+			for _, op := range ins.Operands(nil) {
+				if *op == nil {
+					continue
+				}
+				if s, ok := constStr(*op); ok && s != "" {
+					pos := ins.Pos()
+					if !pos.IsValid() {
+						if vi, ok := (*op).(ssa.Value); ok {
+							pos = vi.Pos()
 						}
 					}
+					consts = append(consts, struct {
+						s   string
+						pos token.Pos
+					}{s, pos})
 				}
-			}
-			if s != "" {
-				consts = append(consts, struct {
-					s   string
-					pos token.Pos
-				}{s, ins.Pos()})
 			}
 		}
 	}
